@@ -210,4 +210,31 @@ theorem silent_examples :
     ((Call.rename [120] [121]).run wStr 0).1.feed.length = 0 := by
   refine ⟨by decide, by decide, by decide, by decide, by decide, by decide, by decide, by decide⟩
 
+/-! ### applying a record late -/
+
+/-- a hash `k = {f: v}` with deadline 10 (watched primary, drained) -/
+def wHashExp : MState :=
+  drain (Api.expireAt (drain (Api.hset w0 0 [107] [102] [118]).1) 0 [107] 10).1
+
+/-- records must be applied before the clock passes a deadline the record does not carry.  At time 5
+    the primary runs `HSet k g w` on a hash that expires at 10 and hands over one HSET record.  A replica
+    in the same state that applies the record at time 5 agrees with the primary at every later time
+    (theorem); a replica that applies it at time 20 finds the key expired, creates a fresh hash without
+    deadline, and from then on shows `k = {g: w}` while the primary shows nothing. -/
+theorem late_apply_finding :
+    logical wHashExp 5 = [([107], .hash [([102], [118])], 10)] ∧
+    (Api.hset wHashExp 5 [107] [103] [119]).1.feed.map (·.typ) = [10] ∧
+    logical (Api.hset wHashExp 5 [107] [103] [119]).1 5 = [([107], .hash [([102], [118]), ([103], [119])], 10)] ∧
+    logical (Api.hset wHashExp 5 [107] [103] [119]).1 20 = [] ∧
+    (∃ r', Feed.applyAll wHashExp 5 [opHSet [107] [103] [119]] = some r' ∧
+      logical r' 5 = logical (Api.hset wHashExp 5 [107] [103] [119]).1 5 ∧ logical r' 20 = []) ∧
+    (∃ r', Feed.applyAll wHashExp 20 [opHSet [107] [103] [119]] = some r' ∧
+      logical r' 20 = [([107], .hash [([103], [119])], 0)]) := by
+  have hap : ∀ t, Feed.applyAll wHashExp t [opHSet [107] [103] [119]] = some (Api.hset wHashExp t [107] [103] [119]).1 := by
+    intro t
+    simp only [Feed.applyAll, applyOp_hset, Option.bind_eq_bind, Option.bind_some]
+    rw [show (hsetF t [107] [103] [119]).run wHashExp t = Api.hset wHashExp t [107] [103] [119] from
+      (hset_eq wHashExp t [107] [103] [119]).symm]
+  refine ⟨by decide, by decide, by decide, by decide, ⟨_, hap 5, rfl, by decide⟩, ⟨_, hap 20, by decide⟩⟩
+
 end NodisVerif.Proofs.C20
